@@ -8,7 +8,7 @@ mkdir -p build evidence replays
 rm -rf build/zoneinfo && mkdir -p build/zoneinfo && tar xzf data/tzdata.tar.gz -C build/zoneinfo
 ( cd vlib && cargo build --release --offline --bin vcheck )
 gcc -O2 -o build/glibc_ref refs/glibc_ref.c
-( cd autotraits && cargo +nightly build --offline )
+for f in "--no-default-features" "--no-default-features --features alloc" ""; do ( cd autotraits && cargo +nightly build --offline $f ); done
 ( cd nostdprobe && cargo build --release --offline --target-dir /verif/target/nostdprobe )
 for cfg in none alloc std; do f=""; [ $cfg != none ] && f="--features $cfg"; ( cd cfgprobe && cargo build --release --offline --no-default-features $f --target-dir /verif/target/cfgprobe-$cfg ); done
 ( cd vlib && cargo build --profile nochecks --offline --bin vcheck )
